@@ -5,6 +5,7 @@ import (
 	"context"
 	"errors"
 	"fmt"
+	"math"
 	"sort"
 	"strings"
 	"sync"
@@ -177,7 +178,7 @@ func (m *model) setStatus(code codes.Code, desc string) {
 
 var keyPool = []string{"a", "b", "c", "d", "e", "f", "g", "h", "k1", "k2", "http.method", "日本", "x y", ""}
 
-var limitChoices = []int{-1, 0, 1, 2, 3, 5, 128}
+var limitChoices = []int{-1, 0, 1, 2, 3, 5, 128, -2, math.MinInt} // every negative value means "unlimited", not only -1
 
 func genString(r *vf.RNG, limit int) string {
 	// lengths around the limit, in bytes and in runes
